@@ -27,6 +27,11 @@ func c09Specs() []*bfsSpec {
 			Setup:    []string{"haveall:0", "unchoke:0", "want:0:1", "want:1:0", "cmd:0:0", "cmd:0:1", "cmd:0:2", "cmd:0:3"},
 			Alphabet: []string{"ansq:0", "ans:0:old:full", "ans:0:new:full", "ans:0:old:corrupt", "rej:0:old", "choke:0", "chokesilent:0", "unchoke:0", "close:0", "adv:2", "adv:31", "unwant:0:1", "unwant:1:0", "donthave:0:1", "tick", "cmd:0:2"},
 			Depth: 5, DepthT: 7},
+		{Name: "c09-webseed", Cfg: worldCfg{Geom: "gtail", Peers: []peerCfg{{Fast: true, Ext: true, DontHave: 7}}, Webseed: true, AutoDrain: true},
+			Setup:    []string{"bf:0:3"},
+			Alphabet: []string{"want:2:1", "want:0:0", "unwant:2:1", "tick", "wsmode:404", "wsmode:body-short", "wsmode:body-long", "wsmode:shifted", "wsmode:honoured", "wsmode:body-fails-mid", "wsmode:transport-error",
+				"unchoke:0", "ans:0:old:full", "adv:2", "adv:31", "adv:400", "close:0", "evict", "setconf:0", "setconf:1"},
+			Depth: 5, DepthT: 6},
 		{Name: "c09-manual-events", Cfg: worldCfg{Geom: "g2x2", Peers: []peerCfg{{Fast: true, Ext: true, DontHave: 7}, {Fast: true}}, AutoDrain: false},
 			Setup:    []string{"haveall:0", "drain", "haveall:1", "drain", "unchoke:0", "drain", "unchoke:1", "drain", "want:0:1", "tick"},
 			Alphabet: []string{"ev", "drain", "tick", "ans:0:old:full", "ans:1:old:full", "close:0", "close:1", "choke:0", "unwant:0:1", "adv:2"},
